@@ -128,8 +128,25 @@ func CheckImage(img []byte, opts txfile.Options, allowed []SpecState, probe bool
 			return
 		}
 		defer tx.Close()
-		live := LiveFromSnap(f.VerifSnapshot())
+		liveAll := LiveFromSnap(f.VerifSnapshot())
+		// On a bounded file whose limit was never changed no data page lies at or beyond the limit
+		// (c04o_alloc_below_limit); pages there that are neither free nor in use are remains of a partially
+		// released overflow area (lost capacity, DESIGN.md 14.5), not pages the client owns.
+		var liveBelow []uint64
+		if fs := f.VerifSnapshot(); fs.MaxPages > 0 {
+			for _, id := range liveAll {
+				if id < fs.MaxPages {
+					liveBelow = append(liveBelow, id)
+				}
+			}
+		} else {
+			liveBelow = liveAll
+		}
 		for i, st := range allowed {
+			live := liveBelow
+			if st.LeakOK {
+				live = liveAll
+			}
 			d := matchState(tx, st)
 			if d == "" {
 				if ids := st.ids(); fmt.Sprint(ids) != fmt.Sprint(live) {
